@@ -447,6 +447,10 @@ func rulesC19(w *World, r *Report) {
 				r.Check(okUTC, "C19.R2", funcName(f)+":format-utc", w.instrPos(c), "formats a UTC time", "a time is formatted without converting to UTC first ("+recv+"), but the layout's zone is the literal Z")
 			case isCallToPkgFunc(c, "time", "Parse"):
 				layout = cv.Common().Args[0]
+			case isCallToPkgFunc(c, "time", "ParseInLocation"):
+				layout = cv.Common().Args[0]
+				loc := newExprCtx(w).expr(cv.Common().Args[2])
+				r.Check(strings.HasSuffix(loc, "time.UTC") || loc == "*time.UTC", "C19.R2", funcName(f)+":parse-utc", w.instrPos(c), "parsed in UTC", "a timestamp text is parsed in "+loc+": the Z of the layout is a literal, so the digits are read in that zone and every -from/-until (or request parameter) is shifted by its offset on a host that is not on UTC")
 			default:
 				continue
 			}
@@ -504,6 +508,113 @@ func rulesC19(w *World, r *Report) {
 	r.Rule("C19.R3", "separators: ArchiveInfo.String joins step and retention with ':' and ArchiveInfoList.String joins elements with ','; ParseArchiveInfo splits on ':' and ParseArchiveInfoList on ','; ParseArchiveInfo fails iff step <= 0, retention <= 0 or retention % step != 0 and stores retention/step points", 5)
 	ruleListStringJoin(w, r, "C19.R3")
 	ruleLayoutOrderKept(w, r, "C19.R3", "ParseArchiveInfoList", "ParseArchiveInfo")
+	// every piece between two commas — the one after the last comma included — reaches ParseArchiveInfo (which refuses
+	// the empty one): the splitting loop ends with success only because no further comma was found (the index test, the
+	// `found` result of strings.Cut) or because a strings.Split result is exhausted, never because what is left is empty
+	if pl := fn(w.Lib, "ParseArchiveInfoList"); pl != nil {
+		pa := fn(w.Lib, "ParseArchiveInfo")
+		var anchor ssa.Instruction
+		for _, c := range callsTo(pl, pa) {
+			if inLoopWith(c.Block()) {
+				anchor = c
+			}
+		}
+		if anchor != nil {
+			var header *ssa.BasicBlock
+			for b := anchor.Block(); b != nil; b = b.Idom() {
+				if isLoopHeader(b) {
+					header = b
+					break
+				}
+			}
+			inLoop := map[*ssa.BasicBlock]bool{}
+			if header != nil {
+				inLoop[header] = true
+				for _, b := range pl.Blocks {
+					if !header.Dominates(b) {
+						continue
+					}
+					for _, p := range header.Preds {
+						if header.Dominates(p) && (b == p || blockReachesAvoiding(b, p, header)) {
+							inLoop[b] = true
+						}
+					}
+				}
+			}
+			fromIndex := func(v ssa.Value) bool {
+				// a comparison of a comma index with a constant, the found result of Cut, or the bound of a range over Split
+				var walk func(v ssa.Value, d int) bool
+				walk = func(v ssa.Value, d int) bool {
+					if d > 4 {
+						return false
+					}
+					switch t := v.(type) {
+					case *ssa.BinOp:
+						return walk(t.X, d+1) || walk(t.Y, d+1)
+					case *ssa.UnOp:
+						return walk(t.X, d+1)
+					case *ssa.Phi:
+						allConst := true
+						for _, e := range t.Edges {
+							if _, isK := e.(*ssa.Const); !isK {
+								allConst = false
+							}
+							if walk(e, d+1) {
+								return true
+							}
+						}
+						// a flag set to true or false by a test: judged by that test
+						if allConst {
+							if dom := t.Block().Idom(); dom != nil && len(dom.Instrs) > 0 {
+								if iff, isIf := dom.Instrs[len(dom.Instrs)-1].(*ssa.If); isIf {
+									return walk(iff.Cond, d+1)
+								}
+							}
+						}
+					case *ssa.Extract:
+						return walk(t.Tuple, d+1)
+					case *ssa.Call:
+						if sc := t.Common().StaticCallee(); sc != nil && sc.Pkg != nil && sc.Pkg.Pkg.Path() == "strings" {
+							switch sc.Name() {
+							case "Index", "IndexByte", "IndexRune", "IndexAny", "Cut", "Split", "SplitN", "Count":
+								return true
+							}
+						}
+						if bi, ok := t.Common().Value.(*ssa.Builtin); ok && bi.Name() == "len" {
+							return walk(t.Common().Args[0], d+1)
+						}
+					}
+					return false
+				}
+				return walk(v, 0)
+			}
+			bad := ""
+			idx := errResultIndex(pl)
+			for b := range inLoop {
+				if len(b.Instrs) == 0 {
+					continue
+				}
+				iff, ok := b.Instrs[len(b.Instrs)-1].(*ssa.If)
+				if !ok {
+					continue
+				}
+				for _, sc := range b.Succs {
+					if inLoop[sc] {
+						continue
+					}
+					// an exit of the loop: does it lead to success?
+					ret := pathAvoidingTo(sc, func(ssa.Instruction) bool { return false }, func(rt *ssa.Return) bool { return idx >= 0 && isNilConst(rt.Results[idx]) })
+					if ret == nil {
+						continue
+					}
+					if !fromIndex(iff.Cond) {
+						bad = "the loop ends with success under " + shortExpr(newExprCtx(w).expr(iff.Cond)) + " (" + w.blockPos(b) + "), which does not ask whether another comma was found"
+					}
+				}
+			}
+			r.Check(bad == "" && header != nil, "C19.R3", "ParseArchiveInfoList:every-piece-parsed", w.pos(pl.Pos()), "the splitting loop ends only when no further comma was found", "ParseArchiveInfoList: "+bad+": the empty definition after a trailing comma is never shown to ParseArchiveInfo and the string is accepted")
+		}
+	}
 	checkSep := func(name, sep string, isPrinter bool) {
 		f := need(w, r, "C19.R3", w.Lib, name)
 		if f == nil {
